@@ -272,7 +272,7 @@ def _parse_tlc_output(res, out):
         m = re.search(r"(?s)Error: (.*?)(?:\n\n|\Z)", out)
         res.error = m.group(1)[:2000] if m else "TLC did not finish normally"
     # counterexample trace
-    for m in re.finditer(r"(?s)State (\d+): <([^>\n]*)>\n(.*?)(?=\n\n|\nState \d+:|\Z)", out):
+    for m in re.finditer(r"(?s)State (\d+): <([^\n]*)>\n(.*?)(?=\n\n|\nState \d+:|\Z)", out):
         label = m.group(2)
         am = re.match(r"([A-Za-z_][A-Za-z0-9_]*)", label)
         try:
